@@ -517,8 +517,9 @@ class KOpt(Kind):
 class KRecord(Kind):
   """A NamedTuple / plain object with a fixed set of typed fields."""
 
-  def __init__(self, name, fields, mutable=False, methods=None):
+  def __init__(self, name, fields, mutable=False, methods=None, variant=''):
     self.rname = name
+    name = name + variant        # a second encoding of the same class (e.g. abstract strings)
     self.name = 'Rec_' + name
     self.fields = dict(fields)
     self.mutable = mutable
@@ -530,16 +531,17 @@ class KRecord(Kind):
                                   for f, kd in self.fields.items()])
       _DT_CACHE[k] = dt.create()
     self.dt = _DT_CACHE[k]
+    self.dtname = name
 
   def sort(self):
     return self.dt
 
   def box(self, w):
-    ctor = getattr(self.dt, 'mkr_' + self.rname)
+    ctor = getattr(self.dt, 'mkr_' + self.dtname)
     return ctor(*[kd.box(coerce(w.fields[f], kd)) for f, kd in self.fields.items()])
 
   def unbox(self, e):
-    return VRecord(self, {f: kd.unbox(getattr(self.dt, f'{self.rname}_{f}')(e))
+    return VRecord(self, {f: kd.unbox(getattr(self.dt, f'{self.dtname}_{f}')(e))
                           for f, kd in self.fields.items()})
 
 
